@@ -50,6 +50,10 @@ CLAIMED = {
    text="Digest data and control flow only, decided by symbolic execution with z3: with document serialisation, canonicalisation and SHA-256 as injective uninterpreted functions over an abstract content token, the real Envelope.calculate / Digest / Validate / verifyDigest are shown, for symbolic content tokens before and after an edit, to put exactly the digest of the current document into the header, to validate a calculated envelope iff its parts validate, to reject every envelope whose document content differs from the one digested (signed or not), and to produce a different digest after recalculation iff the content differs. Native replays use real documents, canonical JSON and SHA-256.",
    note="Outside (not decided): the every-field sweep over real serialised documents (whether every member reaches the serialisation: reflection and encoding/json are beyond the encoder) and the re-encoding half, which rests on C07's member-order / escape independence. Injectivity of marshal/c14n/sha256 is an assumption.",
    ref="DESIGN.md 5 (C08)"),
+ "C10": dict(
+   text="Bounded model checking of the envelope lifecycle by symbolic execution with z3: every history of 3 (thorough 4) operations drawn from {calculate, edit document, sign with key 0 / key 1, unsign, add or overwrite stamp pa (symbolic value), add stamp pb, validate, verify}, from a calculated or uncalculated start and for each of the four document-validity kinds, is run through the real Envelope / Header / Stamp / Digest code and compared step by step with a reference state machine over the four facts (digest matches, document valid / valid once signed, signatures present, header contains each signed header): signing succeeds iff the envelope would validate as a signed one, a failed signing leaves no signature, stamps validate only on signed envelopes, verify succeeds iff every signature's key is supplied and its signed header is still contained, every signature entry carries a JWS. Content tokens and stamp values are symbolic; counterexamples are replayed natively with real documents (message, invalid message, invoice without code), real ES256 keys and signatures.",
+   note="Stubs: document content as an abstract token with injective marshal/c14n/sha256 (C08), document validity as harness flags, JWS sign/verify contract, model of the validation library's reflective dispatcher. Outside: histories longer than the bound (no induction), links/tags/meta (containment decided in C09), parsing envelopes from JSON, insert of arbitrary document types.",
+   ref="DESIGN.md 5 (C10)"),
  "C07": dict(
    text="Bounded model checking (z3) of the c14n package's own code, unit by unit: encodeString on EVERY byte string of length 0..3 (4 thorough): rejected iff not well-formed UTF-8 (RFC 3629), otherwise exactly the minimal-escape form of README rule 8; Integer on every int64; objects with up to three members (symbolic one-byte keys, values integer/null/bool/string): sorted, null members dropped, separators right, independent of input member order; arrays keep nulls and order; the float post-processing on symbolic formatter output keeps digits/exponent and yields README rule 7; the token layer on every decoder token stream of up to 4 (5) tokens: accepted iff exactly one complete value, never a panic.",
    note="encoding/json.Decoder and strconv.AppendFloat are contract stubs in symbolic runs (native replay uses the real ones on rendered text / the denoted float). Outside: nesting deeper than the token bound, long strings. Defects found and fixed: be45fb5, d74cb55, b5a11db, 1c33f8c.",
